@@ -42,6 +42,9 @@ NOTE_B = "deviation bound: every non-default scheduling choice (preemption, or a
 C["C20"] = dict(
     text="7 scenarios (2-3 messages through shared memory and socket fallback into a stream whose callbacks are installed in OnNewStream; OnData consuming all / 3 bytes per call / closing the stream; peer close after the last flush; local Close from another thread at any point): every schedule of client, both event loops, send loop and the callback goroutines with <= 2 (quick) / <= 3 (thorough) deviations; oracles: OnData never re-entered, consumed bytes are a prefix of the flushed bytes, and at quiescence with no close observed everything flushed was offered",
     note=NOTE_B, technique=TECH_B, design="DESIGN.md section 4 C20")
+C["C10"] = dict(
+    text="7 scenarios on a real pair (close from a plain goroutine; both ends at once; Close repeated concurrently on one end; server closes and the client waits for the end; server in callback mode with client close, with a local Close from another goroutine, with Close from inside OnData): every schedule with <= 2 (quick) / <= 3 (thorough) deviations; oracles: state word only moves forward (checked at every atomic operation on it), after a local Close Flush-with-data fails with ErrStreamClosed, reads fail with a closed-stream error, the stream is not active; the peer drains what was flushed before the close, then reads ErrEndOfStream (within 5 virtual seconds) and its Flush fails; exactly one of OnLocalClose/OnRemoteClose per stream end",
+    note=NOTE_B, technique=TECH_B, design="DESIGN.md section 4 C10")
 NA = {}
 m = {
     "version": 1,
